@@ -134,6 +134,17 @@ Theorem tamper_value_byte_detected : forall n m c si sv n' m' c' si' sv',
 Proof. exact data_tamper_changes_validator_input. Qed.
 Print Assumptions tamper_value_byte_detected.
 
+(* The signed portion of an Interest — name components without the digest, then the ApplicationParameters element, then
+   the SignatureInfo element — is an injective function of (name, parameters, SignatureInfo): Interests whose signed
+   portions coincide carry the same signed fields (so a valid signature binds exactly one such triple). *)
+Theorem signed_portion_injective_interest : forall pre c si pre' c' si',
+  name_ok pre -> name_ok pre' -> opt_si_wf si -> opt_si_wf si' ->
+  (blen (name_inner pre) + blen (enc_elems (int_tail_elems (Some c) si None)) + 100 < 9223372036854775808) ->
+  name_inner pre ++ enc_elems (int_tail_elems (Some c) si None) = name_inner pre' ++ enc_elems (int_tail_elems (Some c') si' None) ->
+  (pre, c, si) = (pre', c', si').
+Proof. exact int_signed_portion_inj. Qed.
+Print Assumptions signed_portion_injective_interest.
+
 (* the same for an Interest's parameters region: different parameters / SignatureInfo / signature value give a different
    digest input, so the parameters-digest check compares against the hash of different bytes *)
 Theorem tamper_params_changes_digest_input : forall c si sv c' si' sv', opt_si_wf si -> opt_si_wf si' ->
